@@ -141,6 +141,12 @@ def build():
     # Result functions whose Ok leaves the body through an explicit `return` (C09)
     for fl in ["g", "t", "a"]:
         fns.append(mk(len(fns), fl, "lru", early=True, ret=2))
+    # attribute texts that mention the OTHER scope: a name / tag / event containing "thread" on global and
+    # async functions, a name containing "global" on a thread-scope function (C14)
+    fns.append(mk(len(fns), "g", "lru", limit=3, name="worker_thread_lookup"))
+    fns.append(mk(len(fns), "g", "fifo", limit=3, tags=("thread_pool",), events=("thread_exit",)))
+    fns.append(mk(len(fns), "a", "lru", limit=3, name="thread_local_async"))
+    fns.append(mk(len(fns), "t", "lru", limit=3, name="global_counter"))
     return fns
 
 
